@@ -99,7 +99,8 @@ def diag_labels(ctx):
         for (fk, code, ds) in units.plant_all(base, ns, rng):
             nf = rng.choice([1, 1, 2, 3])
             files = units.split_files(rng, ds, nf) if nf > 1 else [list(ds)]
-            cases.append({'fault': fk, 'code': code, 'texts': [units.print_file(f, rng) for f in files]})
+            vary = rng.random() < 0.5   # enumerated values with their type name (T#V), identifier case per occurrence
+            cases.append({'fault': fk, 'code': code, 'texts': [units.print_file(f, rng, vary=vary) for f in files]})
     if ctx.quick() and len(cases) > 500: cases = rng.sample(cases, 500)
     out = core.run_lines(core.VH, ['project ' + ' '.join(core.hexs(t) if t else '-' for t in c['texts']) for c in cases], jobs=12)
     lexed = {}
